@@ -4,7 +4,7 @@ import evm_common
 
 ID = "C08"
 PROPERTIES_V = ["theories/Properties/C08.v"]
-MAKE_TARGETS = ["theories/Properties/C08.vo", "theories/Proofs/GenAgreeTree.vo", "theories/Model/BridgeCases.vo"]
+MAKE_TARGETS = ["theories/Properties/C08.vo", "theories/Proofs/GenAgreeTree.vo", "theories/Proofs/GenAgreeSiblings.vo", "theories/Model/BridgeCases.vo"]
 HARNESS = "bridge"
 HARNESS_ARGS = ["-prop", "c08"]
 CASES_IMPORTS = bc.IMPORTS
